@@ -1,22 +1,49 @@
 //! Suite `locks` (C10): lock-level trace of operations on thread-safe pipelines,
 //! recorded through hook H2 (`rxrust::rc::verif::BEFORE_LOCK`) on ONE thread.
 //!
-//! field  subs (<elem>*) (<elem>*) …   one chain per subscriber, source side first, over
-//!                                     `SubjectThreads` number 0; elem = plain | cell | slot | fin
-//!          plain = map(add1)                     (lock-free stage)
-//!          cell  = merge_threads(never-emitting subject)
-//!          slot  = take_until_threads(never-emitting subject)
-//!          fin   = finalize_threads(counter)
-//! events next <v> | complete | error <e> | retain | size | unsuball | unsub <u>
+//! field  root (subject <chain>*) | (behavior <chain>*) | (share (<notif>*))
+//!          subject  = `SubjectThreads`                       (subject number 0)
+//!          behavior = `BehaviorSubject<_, SubjectThreads>`
+//!          share    = `tap.share_threads()` with no subscriber yet; `tap` is a harness-defined source that
+//!                     keeps the observer it is given (the share's inner `SubjectThreads`) and first emits the
+//!                     listed notifications synchronously from inside `actual_subscribe` (i.e. during `connect()`)
+//!        chain = (<elem>* [<nested>])   one subscriber, source side first; the observer at its end is a probe
+//!                                      (numbered in order of creation) or, if the last element is a list, a
+//!                                      nested `(subject <chain>*)` / `(behavior <chain>*)` with its own
+//!                                      subscribers (subjects are numbered in order of creation, depth first)
+//!          plain = map(add1)                               (lock-free stage)
+//!          cell  = merge_threads(quiet)                    quiet: a harness-defined observable that never emits
+//!          slot  = take_until_threads(quiet)
+//!          fin   = finalize_threads(f)                     f records the token `f0[<held cells>]`
+//!          oo    = observe_on_threads(H1 scheduler)
+//!          dl    = delay_threads(1 tick, H1 scheduler)
+//! field  subs <chain>*                = root (subject <chain>*)        (the older spelling)
 //!
-//! One line per event: `t=a<cell>[<held cells>],…,c<sub>[<held cells>],…` — every lock acquisition
-//! with the cells held at that moment (ascending), every probe callback likewise; cells are
+//! events, each optionally prefixed by `on <s>` (the subject it addresses; default 0):
+//!   next <v> | complete | error <e>   the Observer methods of the subject (share: of the inner subject, through the tap)
+//!   fin                               `is_finished()`
+//!   retain | size | unsuball          `retain()`, `len()`, `unsubscribe()` (share: on the inner subject, through the tap)
+//!   subscribe <chain>                 `pipeline.actual_subscribe(observer)`; the new chain is BUILT with the hook off,
+//!                                     only the final `actual_subscribe` is traced
+//!   unsub <i>                         `unsubscribe()` of the subscription the i-th subscriber of the subject got
+//!   poll <g>                          the H1 executor polls the g-th task ever spawned (on this thread)
+//!   pend <g>                          … a task of `delay_threads` for the first time: its timer has not fired, the poll
+//!                                     returns `Pending`; afterwards (no locks involved) the clock is advanced and
+//!                                     the timer fired
+//!
+//! One line per event: `t=a<cell>[<held cells>],…,c<probe>[<held cells>],…` — every lock acquisition
+//! with the cells held at that moment (ascending), every probe callback and every finalizer call likewise; cells are
 //! numbered in order of first acquisition.  `RELOCK` if a cell is acquired while the thread already holds it.
-use rxrust::observer::BoxObserverThreads;
+use std::sync::{Arc, Mutex};
+
 use rxrust::ops::box_it::{BoxIt, CloneableBoxOpThreads};
 use rxrust::prelude::*;
+use rxrust::scheduler::verif::VerifSchedulerThreads;
+use rxrust::subscription::BoxSubscriptionThreads;
 
-use crate::val::{fn1, Val};
+use crate::sexp::SExp;
+use crate::val::{fn1, Notif, Val};
+use crate::vtime::{self, Exec, Queue};
 use crate::{Case, Out};
 
 use crate::locktrace::{self, on_cb};
@@ -38,49 +65,216 @@ impl Observer<Val, i64> for LockProbe {
 }
 
 type TB = CloneableBoxOpThreads<Val, i64>;
+type Subj = SubjectThreads<Val, i64>;
+type Beh = BehaviorSubject<Val, Subj>;
 
-pub fn run(case: &Case, out: &mut Out) {
-  locktrace::start();
-  locktrace::pause();
-  let subject: SubjectThreads<Val, i64> = SubjectThreads::default();
-  let idle: SubjectThreads<Val, i64> = SubjectThreads::default();
-  let mut handles: Vec<Option<rxrust::subscription::BoxSubscriptionThreads>> = vec![];
-  // build and subscribe with the hook off: only the operations of the script are traced
-  for (u, chain) in case.field("subs").iter().enumerate() {
-    let mut p: TB = subject.clone().box_it();
-    for e in chain.list() {
+/// An observable that never emits and owns no cell.
+#[derive(Clone)]
+struct Quiet;
+impl<O: Observer<Val, i64>> Observable<Val, i64, O> for Quiet {
+  type Unsub = ();
+  fn actual_subscribe(self, _: O) {}
+}
+impl ObservableExt<Val, i64> for Quiet {}
+
+/// The source under `share_threads()`: keeps the subject it is connected to (in a plain `Mutex`, not a
+/// `MutArc` cell) and emits `sync` from inside `actual_subscribe`.
+#[derive(Clone)]
+struct Tap {
+  sync: Vec<Notif>,
+  store: Arc<Mutex<Option<Subj>>>,
+}
+impl Observable<Val, i64, Subj> for Tap {
+  type Unsub = ();
+  fn actual_subscribe(self, mut o: Subj) {
+    *self.store.lock().unwrap() = Some(o.clone());
+    for n in self.sync {
+      match n {
+        Notif::Next(v) => o.next(v),
+        Notif::Error(e) => return o.error(e),
+        Notif::Complete => return o.complete(),
+      }
+    }
+  }
+}
+impl ObservableExt<Val, i64> for Tap {}
+
+enum Node {
+  Plain(Subj),
+  Beh(Beh),
+  Share(TB, Tap),
+}
+
+enum End {
+  Probe(usize),
+  Subj(Subj),
+  Beh(Beh),
+}
+
+struct World {
+  nodes: Vec<Node>,
+  handles: Vec<Vec<Option<BoxSubscriptionThreads>>>,
+  probes: usize,
+  sched: VerifSchedulerThreads,
+}
+
+impl World {
+  /// `(subject c*)` / `(behavior c*)` / `(share (notif*))`: create it and subscribe its chains (hook off).
+  fn new_node(&mut self, spec: &SExp) -> usize {
+    let id = self.nodes.len();
+    let xs = spec.list();
+    let (node, chains): (Node, &[SExp]) = match xs[0].atom() {
+      "subject" => (Node::Plain(Subj::default()), &xs[1..]),
+      "behavior" => (Node::Beh(Beh::new(Val::Int(0))), &xs[1..]),
+      "share" => {
+        let sync = xs.get(1).map(|l| l.list().iter().map(Notif::parse).collect()).unwrap_or_default();
+        let tap = Tap { sync, store: Arc::new(Mutex::new(None)) };
+        (Node::Share(tap.clone().share_threads().box_it(), tap), &xs[xs.len()..])
+      }
+      x => panic!("unknown node {}", x),
+    };
+    self.nodes.push(node);
+    self.handles.push(vec![]);
+    for c in chains {
+      self.attach(id, c, false);
+    }
+    id
+  }
+
+  /// The inner `SubjectThreads` of node `s` (share: the one the tap was connected to).
+  fn subject(&self, s: usize) -> Subj {
+    match &self.nodes[s] {
+      Node::Plain(x) => x.clone(),
+      Node::Beh(_) => panic!("the subject of a BehaviorSubject is private"),
+      Node::Share(_, tap) => tap.store.lock().unwrap().clone().expect("share not connected"),
+    }
+  }
+
+  /// Subscribe one chain to node `s`; only the final `actual_subscribe` is traced (if `traced`).
+  fn attach(&mut self, s: usize, chain: &SExp, traced: bool) {
+    let elems = chain.list();
+    let (ops, end) = match elems.last() {
+      Some(SExp::List(_)) => (&elems[..elems.len() - 1], {
+        let id = self.new_node(&elems[elems.len() - 1]);
+        match &self.nodes[id] {
+          Node::Plain(x) => End::Subj(x.clone()),
+          Node::Beh(b) => End::Beh(b.clone()),
+          Node::Share(..) => panic!("a share is not an observer"),
+        }
+      }),
+      _ => (elems, {
+        self.probes += 1;
+        End::Probe(self.probes - 1)
+      }),
+    };
+    let mut p: TB = match &self.nodes[s] {
+      Node::Plain(x) => x.clone().box_it(),
+      Node::Beh(b) => b.clone().box_it(),
+      Node::Share(tb, _) => tb.clone(),
+    };
+    for e in ops {
       p = match e.atom() {
         "plain" => p.map(fn1("add1")).box_it(),
-        "cell" => p.merge_threads(idle.clone()).box_it(),
-        "slot" => p.take_until_threads(idle.clone()).box_it(),
-        "fin" => p.finalize_threads(|| {}).box_it(),
+        "cell" => p.merge_threads(Quiet).box_it(),
+        "slot" => p.take_until_threads::<_, Val, i64>(Quiet).box_it(),
+        "fin" => p.finalize_threads(locktrace::on_fin).box_it(),
+        "oo" => p.observe_on_threads(self.sched.clone()).box_it(),
+        "dl" => p.delay_threads(vtime::ticks(1), self.sched.clone()).box_it(),
         x => panic!("unknown chain element {}", x),
       };
     }
-    handles.push(Some(p.actual_subscribe(LockProbe(u))));
+    if traced {
+      locktrace::resume();
+    }
+    let h = match end {
+      End::Probe(u) => p.actual_subscribe(LockProbe(u)),
+      End::Subj(x) => p.actual_subscribe(x),
+      End::Beh(b) => p.actual_subscribe(b),
+    };
+    if traced {
+      locktrace::pause();
+    }
+    self.handles[s].push(Some(h));
   }
-  let _keep: Vec<BoxObserverThreads<Val, i64>> = vec![];
-  locktrace::resume();
+}
+
+pub fn run(case: &Case, out: &mut Out) {
+  vtime::install();
+  vtime::reset();
+  vtime::set_unit_nanos(1_000_000);
+  locktrace::start();
+  locktrace::pause();
+  let sched = VerifSchedulerThreads::default();
+  let exec = Exec::new(Queue::Shared(sched.clone()));
+  let mut w = World { nodes: vec![], handles: vec![], probes: 0, sched };
+  // build and subscribe with the hook off: only the operations of the script are traced
+  let root: SExp = if case.has("root") {
+    case.field("root")[0].clone()
+  } else {
+    let mut xs = vec![SExp::Atom("subject".to_string())];
+    xs.extend(case.field("subs").iter().cloned());
+    SExp::List(xs)
+  };
+  w.new_node(&root);
   for (k, ev) in case.events.iter().enumerate() {
     out.cur = k;
     let _ = locktrace::take();
-    let mut s = subject.clone();
-    let r = std::panic::catch_unwind(std::panic::AssertUnwindSafe(|| match ev[0].atom() {
-      "next" => s.next(Val::parse(&ev[1])),
-      "complete" => s.complete(),
-      "error" => s.error(ev[1].int()),
-      "retain" => s.retain(),
-      "size" => {
-        let _ = s.len();
+    let (s, ev): (usize, &[SExp]) = if ev[0].atom() == "on" { (ev[1].nat(), &ev[2..]) } else { (0, &ev[..]) };
+    let r = std::panic::catch_unwind(std::panic::AssertUnwindSafe(|| {
+      let op = ev[0].atom();
+      if op == "subscribe" {
+        // (the chain is built with the hook off, `attach` switches it on for the subscription itself)
+        w.attach(s, &ev[1], true);
+        return;
       }
-      "unsuball" => s.unsubscribe(),
-      "unsub" => {
-        if let Some(h) = handles[ev[1].nat()].take() {
-          h.unsubscribe()
+      locktrace::resume();
+      match op {
+        "next" | "complete" | "error" => {
+          let n = match op {
+            "next" => Notif::Next(Val::parse(&ev[1])),
+            "error" => Notif::Error(ev[1].int()),
+            _ => Notif::Complete,
+          };
+          match &w.nodes[s] {
+            Node::Beh(b) => deliver(b.clone(), n),
+            _ => deliver(w.subject(s), n),
+          }
         }
+        "fin" => {
+          let _ = match &w.nodes[s] {
+            Node::Beh(b) => Observer::<Val, i64>::is_finished(b),
+            _ => Observer::<Val, i64>::is_finished(&w.subject(s)),
+          };
+        }
+        "retain" => w.subject(s).retain(),
+        "size" => {
+          let _ = match &w.nodes[s] {
+            Node::Beh(b) => b.len(),
+            _ => w.subject(s).len(),
+          };
+        }
+        "unsuball" => match &w.nodes[s] {
+          Node::Beh(b) => b.clone().unsubscribe(),
+          _ => w.subject(s).unsubscribe(),
+        },
+        "unsub" => {
+          if let Some(h) = w.handles[s][ev[1].nat()].take() {
+            h.unsubscribe()
+          }
+        }
+        "poll" => exec.poll(ev[1].nat()),
+        "pend" => {
+          exec.poll(ev[1].nat());
+          locktrace::pause();
+          vtime::advance(1);
+          for t in vtime::due_timers() {
+            vtime::fire(t);
+          }
+        }
+        e => panic!("unknown event {}", e),
       }
-      e => panic!("unknown event {}", e),
     }));
+    locktrace::pause();
     let toks = locktrace::take();
     out.emit(k, format!("t={}", toks));
     if r.is_err() {
@@ -88,5 +282,13 @@ pub fn run(case: &Case, out: &mut Out) {
     }
   }
   locktrace::stop();
-  std::mem::forget(handles);
+  std::mem::forget(w);
+}
+
+fn deliver<O: Observer<Val, i64>>(mut o: O, n: Notif) {
+  match n {
+    Notif::Next(v) => o.next(v),
+    Notif::Error(e) => o.error(e),
+    Notif::Complete => o.complete(),
+  }
 }
